@@ -299,7 +299,8 @@ class SimEnv:
                     cli.main()
             except SystemExit as e:
                 code = e.code
-                status = 0 if code is None else (code if isinstance(code, int) else 1)
+                # what the operating system reports: the low 8 bits of an integer code, 1 for any other object
+                status = 0 if code is None else ((code & 0xFF) if isinstance(code, int) else 1)
                 exc = {"type": "SystemExit", "msg": str(code)}
             except InjectedCrash as e:
                 status, exc = 1, {"type": "InjectedCrash", "msg": str(e)}
